@@ -55,7 +55,8 @@ def floors(tier):
          "measure:overlap": 100, "measure:mpo": 70, "measure:mpo-sum": 30, "measure:mpo-pbc": 20, "measure:env-sum": 20,
          "measure:on_bra": 8, "measure:charged-op:nonzero": 20, "measure:charged-op-nonvanishing": 20,
          "measure:op-charge-on-flipped-boundary-leg:nonvanishing": 5, "measure:op-charge-on-flipped-last-leg:nonvanishing": 1,
-         "measure:op-charge-on-flipped-first-leg:nonvanishing": 1, "leaf:harness:charge-on-last-leg:nonzero": 40, "zipper": 60, "zipper:pbc": 15, "compression:1site": 12,
+         "measure:op-charge-on-flipped-first-leg:nonvanishing": 1, "leaf:harness:charge-on-last-leg:nonzero": 40, "leaf:site-amplitude-scale": 100,
+         "leaf:tiny-site-amplitude": 50, "zipper": 60, "zipper:pbc": 15, "compression:1site": 12,
          "compression:2site": 12, "leaf:harness": 700, "leaf:random": 200, "leaf:product": 200, "leaf:from_tensor": 120,
          "from_tensor:balance": 35, "from_tensor:first": 35, "from_tensor:last": 35, "nonzero_charge_leaves": 400,
          "complex_leaves": 600, "addn_mixed_sign_or_phase": 25, "matmul_mode_meta": 20, "central:reverse": 4,
@@ -122,7 +123,7 @@ class Node:
     def shape(self):
         if self.op == "leaf":
             p = self.par
-            return ("leaf", p["src"], p["kind"], tuple(p["q"]), p["dtype"], p.get("factor"), p.get("canonize"), p.get("at"))
+            return ("leaf", p["src"], p["kind"], tuple(p["q"]), p["dtype"], p.get("factor"), p.get("canonize"), p.get("at"), p.get("site_scale"))
         par = {k: v for k, v in self.par.items() if k in ("how", "n")}
         return (self.op, tuple(sorted(par.items())), tuple(k.shape() for k in self.kids))
 
@@ -210,7 +211,8 @@ class Env:
                                      or (self.loc.d ** (nlegs // self.N)) ** (self.N // 2) > 16):
             src = "harness"      # set_block is quadratic in the number of blocks; keep full tensors below ~256 blocks
         par = {"src": src, "kind": kind, "q": q, "dtype": rng.choice(("float64", "complex128")),
-               "factor": rng.choice((None, None, "pos", "canon-first", "canon-last")), "seed": rng.getrandbits(40), "at": at}
+               "factor": rng.choice((None, None, "pos", "canon-first", "canon-last")), "seed": rng.getrandbits(40), "at": at,
+               "site_scale": rng.choice((1e-20, 1e-15, 1e-15, 1e-8, 1e8)) if rng.random() < 0.08 else None}
         if src == "from_tensor":
             par["canonize"] = rng.choice(("first", "last", "balance"))
             par["opts"] = rng.choice((None, None, {"tol": 1e-13}, {"tol": 1e-14, "D_total": 4096}))
@@ -569,6 +571,17 @@ class Env:
             ctx.count("nonzero_charge_leaves")
         if dtype == "complex128":
             ctx.count("complex_leaves")
+        # amplitude carried by one site tensor instead of psi.factor (everything downstream is judged relatively)
+        if par.get("site_scale") is not None:
+            x, n = par["site_scale"], rng.randrange(N)
+            y = y.shallow_copy()
+            y[n] = x * y[n]
+            truth = truth * x
+            sc = max(R.nrm(truth), R.cond_scale(y))
+            self.compare(f"leaf psi[{n}] = {x} * psi[{n}]", "leaf-site-scale", y, truth, sc, full=False)
+            ctx.count("leaf:site-amplitude-scale")
+            if x <= 1e-15:
+                ctx.count("leaf:tiny-site-amplitude")
         # non-unit factor
         fac = par["factor"]
         if fac == "pos":
